@@ -95,6 +95,10 @@ func handle(p []string) (res string) {
 		return opUnmarshal(p[1:])
 	case "autogen":
 		return opAutogen(p[1:])
+	case "hist":
+		return opHist(p[1:])
+	case "frame":
+		return opFrame(p[1:])
 	case "roundtrip":
 		return opRoundtrip(p[1:])
 	case "remarshal":
